@@ -617,9 +617,10 @@ def step_view(b: Builder, names=None, name=None):
     cf = None
     if name not in ("getitem", "T") and not p.get("method") and b.allow_const_view:
         cf = draw_const_flag(b, is_view=True)
-        if cf is not None and name.startswith("atleast_") and getattr(b, "flag_only_views", False):
-            # known finding C04-atleast-kd-constant-alias (test-pinned upstream): excluded by construction from
-            # C04's histories and counted; its saved case is replayed by the regression tier
+        if cf is not None and name.startswith("atleast_"):
+            # known finding C04-atleast-kd-constant-alias (test-pinned upstream: the pass-through returns the operand
+            # itself, so an explicit flag cannot be honoured): excluded by construction from every generator and
+            # counted; its saved case is replayed by C04's regression tier
             b.labels.add("excluded_known_atleast_kd_constant")
             cf = None
     return b.op(name, [a], p, constant=cf)
